@@ -4,6 +4,7 @@
 set -e
 cd "$(dirname "$0")"
 export CARGO_NET_OFFLINE=true
+export CARGO_TARGET_DIR="$(pwd)/.build/harness"
 python3 tools/gen.py
 (cd lean && lake build capyv CapyV)
 (cd harness && cargo build --offline)
